@@ -83,7 +83,7 @@ Lemma add_arc_step K p (g : graph) roots a b (g' : graph) roots' :
   NoDup K -> BInv K p g roots -> In a K -> In b K ->
   add_arc (g, roots) (a, b) = (g', roots') -> BInv K (p ++ [(a, b)]) g' roots'.
 Proof.
-  intros HK [Hk He Hr] Ha Hb Hadd. unfold add_arc in Hadd.
+  intros HK [Hk He Hr] Ha Hb Hadd. unfold add_arc in Hadd. unfold graph, gentry in *.
   rewrite (He a Ha) in Hadd.
   set (g1 := aset a (indeg p a, children_of p a ++ [b]) g) in *.
   assert (Hk1 : keys g1 = K).
@@ -99,7 +99,7 @@ Proof.
   - intros n Hn. rewrite indeg_snoc, children_of_snoc.
     destruct (text_eqb_spec b n) as [->|Hne].
     + rewrite aget_aset_same. reflexivity.
-    + rewrite aget_aset_other by exact Hne. rewrite (He1 n Hn). f_equal. f_equal. lia.
+    + rewrite aget_aset_other by exact Hne. rewrite Z.add_0_r. apply He1. exact Hn.
   - rewrite Hr, remove_first_filter by exact HK. apply filter_ext. intros n.
     rewrite indeg_snoc. pose proof (indeg_nonneg p n).
     destruct (text_eqb b n); simpl.
@@ -111,13 +111,13 @@ Lemma add_arcs_spec K rest : NoDup K -> forall p (g : graph) roots,
   BInv K p g roots -> (forall a b, In (a, b) rest -> In a K /\ In b K) ->
   forall (g' : graph) roots', fold_left add_arc rest (g, roots) = (g', roots') -> BInv K (p ++ rest) g' roots'.
 Proof.
-  intros HK. induction rest as [|[a b] rest IH]; intros p g roots HB Hin g' roots' Hf; simpl in Hf.
+  intros HK. induction rest as [|[a b] rest IH]; intros p g roots HB Hin g' roots' Hf; cbn [fold_left] in Hf.
   - injection Hf as <- <-. rewrite app_nil_r. exact HB.
   - destruct (add_arc (g, roots) (a, b)) as [g1 roots1] eqn:E.
     destruct (Hin a b (or_introl eq_refl)) as (Ha & Hb).
     pose proof (add_arc_step K p g roots a b g1 roots1 HK HB Ha Hb E) as HB1.
     replace (p ++ (a, b) :: rest) with ((p ++ [(a, b)]) ++ rest) by (rewrite <- app_assoc; reflexivity).
-    eapply IH; eauto. intros; apply Hin; right; auto.
+    apply (IH (p ++ [(a, b)]) g1 roots1 HB1); [intros a' b' H'; apply Hin; right; exact H'|exact Hf].
 Qed.
 
 Lemma fold_left_cond {A B} (f : A -> B -> A) (c : B -> bool) l : forall st,
@@ -151,7 +151,7 @@ Proof.
       rewrite He. rewrite (Hz0 _ _ He). reflexivity.
     - symmetry. apply filter_true_id. intros; reflexivity. }
   assert (HinK : forall a b, In (a, b) (parcs s) -> In a K /\ In b K).
-  { intros a b H. apply filter_In in H. destruct H as (_ & H). unfold arc_present in H. simpl in H.
+  { intros a b H. apply filter_In in H. destruct H as (_ & H). unfold arc_present in H. cbn [fst snd] in H.
     apply andb_true_iff in H. destruct H as (H1 & H2). apply mem_text_In in H1, H2.
     split; apply Hin0; right; assumption. }
   pose proof (add_arcs_spec K (parcs s) Hnd0 [] g0 roots0 HB0 HinK g roots Hb) as [Hk He Hr].
@@ -166,6 +166,7 @@ Proof.
     + rewrite Hr. apply NoDup_filter. exact Hnd0.
     + intros l1 b l2 E. destruct l1; discriminate.
     + constructor.
+    + intros n [].
   - intros n. split; intros H; [apply Hin0 in H; destruct H as [[]|H]; exact H|apply Hin0; right; exact H].
   - exact HinK.
 Qed.
